@@ -305,9 +305,17 @@ func (b Builder) Defer(kind DoAction, fn Expr, buildCall func(Builder, Expr, ...
 	dbgInstrCall("Defer", fn, args)
 	var prog Program
 	var nextbit Expr
+	first := b.Func.defer_ == nil
 	var self = b.getDefer(kind)
 	if self == nil {
 		return
+	}
+	// Only the statement that sets up the frame's defer state is certain to have
+	// been executed whenever the deferred calls run: a panic may leave the
+	// function before any later defer statement is reached, so those record
+	// that they were executed like conditional ones do.
+	if kind == DeferAlways && !first && uintptr(self.nextBit) < unsafe.Sizeof(uintptr(0))*8 {
+		kind = DeferInCond
 	}
 	id := b.Prog.Val(b.Func.nextDeferID)
 	b.Func.nextDeferID++
